@@ -86,7 +86,7 @@ theorem pres_addNode (n : String) (c : R) : Pres (onSt (InvNo n)) (addNode n c) 
   unfold addNode
   apply pres_bind (pres_invNo_step n _ _ id (fun s h => h)); intro _
   apply pres_bind (fun _ _ h => h); intro s
-  apply pres_txn
+  apply pres_txn onSt_setDet
   · apply pres_ite
     · exact pres_bind (pres_invNo_step n _ _ id (fun s h => h)) (fun _ => pres_refuse _)
     · exact pres_invNo_step n _ _ (pAddNode n c) (fun s h => invNo_zero h rfl rfl rfl)
@@ -125,7 +125,7 @@ theorem pres_removeNode (n : String) : Pres (onSt Inv) (removeNode (R := R) n) :
         have hI : onSt (InvNo n) ms1 := ⟨h1', hno⟩
         have : Pres (onSt (InvNo n)) (removeNodeTxn (R := R) n) := by
           unfold removeNodeTxn removeNodeCond
-          apply pres_txn
+          apply pres_txn onSt_setDet
           · apply pres_bind (pres_attempt (pres_invNo_step n _ _ id (fun s h => h))); intro _
             apply pres_bind (pres_invNo_step n _ _ (sRmNode n) (fun s h => invNo_keep h rfl rfl rfl)); intro _
             apply pres_bind (pres_attempt (pres_invNo_step n _ _ id (fun s h => h))); intro _
@@ -195,9 +195,11 @@ theorem addNode_failed (n : String) (c : R) (flt : Option Addr) (ms : MS R)
 /-- the fault plan does not hit the plugin's RemoveNode call -/
 def RemoveNodeGuard (flt : Option Addr) : Prop := ∀ a, flt = some a → a.kind ≠ "pluginRemoveNode"
 
-/-- **remove-node, partial (D16c)**: when the plan does not hit the plugin's RemoveNode, a failed
+/-- **remove-node, partial (D16c)**: when the plan does not hit the plugin's RemoveNode and the caller is not
+cancelled (a cancelled caller makes the plugin call of the then-step fail just the same), a failed
 RemoveNode leaves everything as it was. -/
-theorem removeNode_failed_partial (n : String) (flt : Option Addr) (hG : RemoveNodeGuard flt) (ms : MS R) :
+theorem removeNode_failed_partial (n : String) (flt : Option Addr) (hG : RemoveNodeGuard flt) (ms : MS R)
+    (hnc : ms.cancel = none ∧ ms.cancelled = false) :
     wp (removeNode n) (fun o ms' => o = .fail → NodeAbsEq ms.st ms'.st) flt ms := by
   have same : ∀ ms' : MS R, ms'.st = ms.st → NodeAbsEq ms.st ms'.st := by
     intro ms' e; rw [e]; exact ⟨AbsEq.refl _, rfl⟩
@@ -219,7 +221,10 @@ theorem removeNode_failed_partial (n : String) (flt : Option Addr) (hG : RemoveN
         · intro _; exact same _ rfl
         · unfold removeNodeTxn removeNodeCond
           wp_simp
-          simp only [hit_of_kind_ne hG, Bool.false_eq_true, if_false]
+          have hcx : ∀ (c : List (String × String × Nat)) (d : Bool), ((false || decide ((none : Option (Addr × Bool)) = some (⟨"pluginRemoveNode", n, count c "pluginRemoveNode" n⟩, false))) && !d && sensitive "pluginRemoveNode") = false := by
+            intro c d; simp
+          simp only [cxOf, cancelHere, cancelledAfter, okMS, failMS, hnc.1, hnc.2, Bool.false_or, Bool.or_false,
+            reduceCtorEq, decide_false, Bool.false_and, hit_of_kind_ne hG, Bool.false_eq_true, if_false]
           repeat' split
           all_goals first
             | (intro _; exact ⟨AbsEq.refl _, rfl⟩)
